@@ -206,7 +206,6 @@ func (rs *RSched) PreemptAt(k PKey) {
 func (rs *RSched) Decisions() []SchedDecision {
 	return append([]SchedDecision(nil), rs.dec...)
 }
-func (rs *RSched) Tasks() []*RTask { return append([]*RTask(nil), rs.tasks[:rs.n]...) }
 
 //go:norace
 func (rs *RSched) record(d SchedDecision) {
@@ -691,7 +690,7 @@ func (rs *RSched) Stats() (yields, switches, goCalls int, deadlock, overflow, ov
 func rGo(rs *RSched, site int, f func()) {
 	t := rs.goTask(site, f)
 	if t == nil {
-		go f() // too many tasks: a plain goroutine (the run is marked as overflowed)
+		f() // more tasks than the table holds: run inline; the run is marked as overflowed and gives no verdict
 		return
 	}
 	rs.start(t)
